@@ -114,6 +114,20 @@ def gen(rng, idx, tier):
                 for k in classes:
                     if rng.random() < 0.6:
                         g["anchors"].append({"name": k, "x": coord(rng), "y": coord(rng)})
+    if rng.random() < 0.12:
+        # a long ligature (>= 10 components): two-digit component numbers in the anchor names
+        ncomp = rng.choice([10, 11, 12, 21])
+        lig = {"name": "long_lig", "width": 3000, "unicodes": [], "components": [],
+               "contours": [[[0, 0, "line"], [2900, 0, "line"], [2900, 500, "line"], [0, 500, "line"]]],
+               "anchors": []}
+        for k in rng.sample(classes, min(len(classes), rng.choice([1, 2]))):
+            for i in range(1, ncomp + 1):
+                if rng.random() < 0.8:
+                    lig["anchors"].append({"name": "%s_%d" % (k, i), "x": 100 * i + coord(rng) / 10.0,
+                                           "y": coord(rng)})
+        glyphs.append(lig)
+        desc["long_lig"] = S.describe("long_lig", [], "orphan")
+        role["long_lig"] = "ligature"
     # every '_x' key must have a counterpart somewhere (see DESIGN section 6, C06 finding),
     # except in the dedicated stratum
     q0 = rng.random()
